@@ -12,7 +12,19 @@ const (
 	CacheMiss    = "always-miss"
 	CacheMap     = "sync.Map"
 	CacheLRU     = "lru" // with Cap
+	// CacheMapDirect: a sync.Map handed to SetStructTypeCache as it is, without the fault-injecting wrapper, so that
+	// the library sees every method of the map (LoadOrStore, Range, ...), as it would in production; needs a fresh process
+	CacheMapDirect = "sync.Map-direct"
 )
+
+// installDirectMap installs a bare sync.Map (the scratch copy's, i.e. the shim's) as the type cache of this process.
+func installDirectMap() {
+	if theCache != nil || cacheTouched {
+		panic("e2: a sync.Map-direct plan must run in a fresh process")
+	}
+	valid.SetStructTypeCache(new(simsync.Map))
+	cacheTouched = true
+}
 
 type missCache struct{}
 
